@@ -109,9 +109,7 @@ def stableBorrowInterest (amount : Int) (rate : Dec) (now prev : Int) : Out :=
   let secs := elapsed now prev
   if secs < 0 then .err else .ok [stableInterest amount rate secs]
 
-/-- lend-reward tracker step (iter.go:33-42): same "≥ 1 ⇒ pay whole units, carry fraction" rule -/
-def trackerStep (tr x : Dec) : Int × Dec :=
-  let t := tr + x
-  if Dec.one ≤ t then (Dec.truncateInt t, t - Dec.ofInt (Dec.truncateInt t)) else (0, t)
+/- the lend-reward tracker (iter.go:33-42) applies the same "≥ 1 ⇒ pay whole units, carry fraction" rule as
+   `Comdex.Accrual.trackerStep` (Model/Accrual.lean); it is modelled there once. -/
 
 end Comdex.LendRates
